@@ -66,16 +66,24 @@ def lst(items):
 class Check(PropertyCheck):
     prop = "C17"
     design_ref = "§5 C17"
-    level_text = ("Lean theorems generated_le_cap, returned_is_custom_matching_or_generated_exact, "
-                  "same_request_same_cert_while_cached, fifo_eviction (+ mem_asteriskForms_iff, generated_le_cap_storeCap) about a stateful model of "
-                  "CertStore (certs as association list, expire queue, fresh ids), proved by invariant induction over ALL "
-                  "operation histories and every capacity; STORE_CAP is re-read from the code on every run; the model is "
-                  "tied to the real CertStore by differential histories (stubbed dummy_cert and real signing).")
+    level_text = ("Lean theorems generated_le_cap(+_storeCap), returned_is_custom_matching_or_generated_exact, "
+                  "same_request_same_cert_while_cached, fifo_eviction, mem_asteriskForms_iff, and — new — "
+                  "refines_abstract_fifo_cache (for every capacity and every history the store gives the same result for every "
+                  "operation as an abstract 'registration table + FIFO cache of the last cap generated certificates keyed by "
+                  "(cn, sans)', and stays related to it), its corollaries cache_bounded_via_refinement and "
+                  "dict_is_cache_and_registrations, and first_registered_name_wins (lookup order: CN forms, SAN forms in "
+                  "request order, '*', only then the generated key). All by invariant induction over ALL operation histories; "
+                  "STORE_CAP is re-read from the code on every run; the model is tied to the real CertStore by differential "
+                  "histories (stubbed dummy_cert and real signing) in which the model also predicts the subject CN and the "
+                  "SAN list of every generated certificate returned.")
     level_note = ("trusted: Lean kernel; the model/implementation tie is differential (random + directed histories over a "
-                  "10-name universe incl. the empty name, >STORE_CAP distinct requests); dummy_cert is a parameter of the "
-                  "model (fresh entry carrying exactly (cn, sans), or failure — the real one refused an empty CN until 154071a26; the harness probes this on every run) — that the real dummy_cert "
-                  "puts exactly these names into the certificate is checked by the oracle on the real-signing histories, "
-                  "not proved; names are ASCII; add_cert is exercised with custom (non-generated) entries only.")
+                  "13-name universe incl. the empty name and names of 64+ characters, >STORE_CAP distinct requests); dummy_cert is "
+                  "a parameter of the model except for its subject rule (subjectCn: CN only if non-empty and < 64 characters) "
+                  "and 'SANs = the requested list', which the model predicts and the tie compares on real-signing histories — "
+                  "not proved about the real dummy_cert; whether it raises on an empty CN is probed on every run; organization "
+                  "and crl_url are passed in the tie but are not part of the store's key and not stored in the model (the "
+                  "certificate's organization is not predicted); names are ASCII; add_cert is exercised with custom "
+                  "(non-generated) entries only.")
     technique = "Lean 4 proof (invariants over operation histories) + differential model-vs-code correspondence + STORE_CAP translator"
     rule = ("a case is one history (<=320 ops) of get_cert / add_cert over 13 names (incl. the empty name, upper case and two "
             "names of >= 64 characters, whose CN dummy_cert leaves out of the subject) x {CN, DNS SAN, IP SAN}, sans passed as "
